@@ -215,6 +215,7 @@ pub fn run_c06(out: &mut Out, tier: &str, seed: u64) {
     }
     crate::objapi::long_inputs(out, &mut rng, true);
     crate::objapi::mixed_order_signatures(out, &mut rng);
+    crate::consts::check(out, &["CRYPTO_SIGN"]);
 }
 
 /// honest keys whose public-key encoding has a rare byte pattern (top byte 0x7f/0x00/0xff, low byte
@@ -330,4 +331,5 @@ pub fn run_c13(out: &mut Out, tier: &str, seed: u64) {
     }
     crate::objapi::seeded_inplace(out, &mut rng);
     crate::objapi::conversion_edges(out, &mut rng, tier == "thorough");
+    crate::objapi::seeded_object_keys(out, &mut rng);
 }
